@@ -1016,6 +1016,10 @@ impl<const M: usize> Sim<M> {
                 if grow && new_align <= M && new_align <= old_align && round_up(new_size, M) <= cap_before {
                     let p = if self.limit.is_some() { "C07" } else { "C09" };
                     rep.violate(p, format!("{}/fitting-request-failed/{}", p, name), self.cur.clone());
+                } else if !grow && (addr % new_align == 0) && new_size <= old_size {
+                    // a shrink of a block that already satisfies the new alignment needs no memory at all
+                    let p = if self.limit.is_some() { "C07" } else { "C09" };
+                    rep.violate(p, format!("{}/fitting-request-failed/{}/block-already-fits-the-new-layout", p, name), format!("{} (block at {:#x})", self.cur, addr));
                 } else if grow && was_last && new_align <= old_align && round_up(new_size, M) >= old_size && round_up(round_up(new_size, M) - old_size, old_align.max(M)) <= cap_before {
                     // the newest block can be extended into the room left in its chunk: that needs no new chunk
                     let p = if self.limit.is_some() { "C07" } else { "C09" };
